@@ -13,10 +13,22 @@ DT = F(1, 4)
 
 def job_fn(job):
     spec = job['spec']
-    ct = build_python(spec)
+    ckw = {}
+    if job.get('delay_via_edge_values') is not None:
+        # the template is built WITHOUT the delay of one edge; that delay is passed for this translation (edge_values)
+        import copy
+        from ..spec import EdgeSpec
+        i = job['delay_via_edge_values']
+        e = spec.edges[i]
+        bare = copy.deepcopy(spec)
+        bare.edges[i] = EdgeSpec(e.src, e.tgt, e.weight, None, e.spread, e.template, e.edge_overrides)
+        ct = build_python(bare)
+        ckw['edge_values'] = {(e.src, e.tgt): {'delay': float(e.delay)}}
+    else:
+        ct = build_python(spec)
     tally = decide.Tally()
     try:
-        c = tv.compile_template(ct, vectorize=job['vectorize'], step_size=float(DT), solver='euler')
+        c = tv.compile_template(ct, vectorize=job['vectorize'], step_size=float(DT), solver='euler', **ckw)
     except tv.CompileError as e:
         return dict(status='compile-raises', error=str(e))
     plugin = tvdelay.RingBufferPlugin(DT)
@@ -63,6 +75,13 @@ def run_level_job(job):
     y = symx.symarray('y0', ny)
     sargs = tv.bind_args(c, binding, y, 0)
     f, _ = tv.load_python(c, binding)
+    if job.get('decorated'):
+        # the function reaches the kernel the way run(decorator=...) hands it over: wrapped by PyRates' own helper
+        def deco(fn):
+            def wrapped(*a):
+                return fn(*a)
+            return wrapped
+        f = bb.BaseBackend._apply_decorator(f, decorator=deco)
     kern = _kernel('base', heun)
     pos, _ = tvspec._positions(c, syms)
     try:
@@ -134,6 +153,12 @@ def run(tier='quick', seed=0, only=None, verbose=False):
     if only:
         progs = [p for p in progs if only in p[0]]
     jobs = [dict(key=f"{k}|vec={v}", spec=s, vectorize=v) for k, s in progs for v in (True, False)]
+    # the delay of ONE edge given through edge_values at translation time (the other edges of its group stay as they are)
+    for k, s in progs:
+        if k in ('F9x:mixed-fanout', 'F9x:undelayed-other-source', 'F9x:self'):
+            i_ = next(i for i, e in enumerate(s.edges) if e.delay is not None)
+            jobs += [dict(key=f"{k}|delay-via-edge_values|vec={v}", spec=s, vectorize=v, delay_via_edge_values=i_)
+                     for v in (True, False)]
     from .. import tvjobs
     tvjobs.run_tv_jobs(rep, jobs, verbose=verbose, fn=job_fn)
     # matrix (Connectivity) edges: delayed connections between populations (harness of C16, here the delay kinds only)
@@ -157,6 +182,9 @@ def run(tier='quick', seed=0, only=None, verbose=False):
             for v in (True, False):
                 rj.append(dict(key=f"run-level:{name}|{'heun' if heun else 'euler'}|vec={v}", spec=fixed[name], vectorize=v,
                                heun=heun, steps=4 if tier == 'quick' else 6, solver='heun' if heun else 'euler'))
+    for v in (True, False):
+        rj.append(dict(key=f"run-level:F9x:ring|heun|decorated|vec={v}", spec=fixed['F9x:ring'], vectorize=v, heun=True,
+                       steps=4, solver='heun', decorated=True))
     if only:
         rj = [j for j in rj if only in j['key']]
     tvjobs.run_tv_jobs(rep, rj, verbose=verbose, fn=run_level_job)
